@@ -263,6 +263,10 @@ def execute(case):
                 if was_link is not None:
                     links[n] = was_link     # the link is back: the name mirrors its reference again (checked by compare)
                     stale.discard(n)
+                    if was_link[0](mv) is rw.SKIP and getattr(tgt, n) != before:
+                        # the restored reference produces no value right now: the previous value must be back all the same
+                        res.fail("C08.update_context_restore", f"{tag}: {n} was {before!r} before the context (its reference currently "
+                                                               f"yields nothing) and is {getattr(tgt, n)!r} after it")
             marks.add("update_context")
         return None
 
